@@ -54,6 +54,15 @@ type c16TP struct {
 
 const c16Canary = "digest: canary\n"
 
+// c16NewLink is a link found below the destination after the call that was not there (with
+// that target) before: where the real kernel says it leads.
+type c16NewLink struct {
+	Path   string `json:"path"`           // sandbox relative
+	Target string `json:"target"`         // as read by Readlink, $SB-mapped
+	Real   string `json:"real,omitempty"` // filepath.EvalSymlinks, sandbox relative ("<outside>/..." when it leaves the sandbox)
+	Err    string `json:"err,omitempty"`  // EvalSymlinks failed (dangling, loop)
+}
+
 func c16TreeSetup(c *c16Case) (tmp string, err error) {
 	tmp, err = os.MkdirTemp("", "c16t-")
 	if err != nil {
@@ -245,6 +254,27 @@ func c16ExecTree(c *c16Case) (obs c16Obs) {
 		}
 	}()
 	obs.After = c16TreeSnapshot(tmp)
+	if c.Kind == "expandt" || c.Kind == "extractt" {
+		before := c16TreeIndex(obs.Before)
+		for _, p := range obs.After {
+			if p.Kind != "link" || !strings.HasPrefix(p.Path, "work/dest/") || before[p.Path] == p {
+				continue
+			}
+			nl := c16NewLink{Path: p.Path, Target: p.Data}
+			real, err := filepath.EvalSymlinks(filepath.Join(tmp, filepath.FromSlash(c16MapName(p.Path, "sb", sbName))))
+			switch {
+			case err != nil:
+				nl.Err = c16Errno(err)
+			case real == tmp:
+				nl.Real = "."
+			case strings.HasPrefix(real, tmp+"/"):
+				nl.Real = c16MapName(real[len(tmp)+1:], sbName, "sb")
+			default:
+				nl.Real = "<outside>" + real
+			}
+			obs.NewLinks = append(obs.NewLinks, nl)
+		}
+	}
 	return obs
 }
 
@@ -318,11 +348,62 @@ func c16Realpath(idx map[string]c16TP, rel string) (string, bool) {
 	return strings.Join(cur, "/"), true
 }
 
+// c16WalkLeaves follows the sandbox-relative path rel over a snapshot and reports whether the
+// walk is ever at a location that is not dest or below it (rel itself lies below dest).
+func c16WalkLeaves(idx map[string]c16TP, rel, dest string) bool {
+	in := func(cur []string) bool {
+		p := strings.Join(cur, "/")
+		return p == dest || strings.HasPrefix(p, dest+"/")
+	}
+	var cur []string
+	todo := strings.Split(rel, "/")
+	started := false
+	for links := 0; len(todo) > 0; {
+		part := todo[0]
+		todo = todo[1:]
+		switch part {
+		case "", ".":
+		case "..":
+			if len(cur) > 0 {
+				cur = cur[:len(cur)-1]
+			}
+		default:
+			next := strings.Join(append(append([]string{}, cur...), part), "/")
+			n, ok := idx[next]
+			if ok && n.Kind == "link" {
+				if links++; links > 40 {
+					return false
+				}
+				t := n.Data
+				if strings.HasPrefix(t, "$SB") {
+					cur = nil
+					t = strings.TrimPrefix(t, "$SB")
+				} else if strings.HasPrefix(t, "/") {
+					return true // an absolute target outside the sandbox
+				}
+				todo = append(strings.Split(t, "/"), todo...)
+				started = started || in(cur)
+				continue
+			}
+			cur = append(cur, part)
+			if !ok && len(todo) > 0 {
+				// a missing intermediate component: the rest cannot be followed any further
+				return started && !in(cur)
+			}
+		}
+		if in(cur) {
+			started = true
+		} else if started {
+			return true
+		}
+	}
+	return false
+}
+
 func c16OracleTree(c *c16Case, obs *c16Obs) []hx.Violation {
 	var vs []hx.Violation
 	inside := func(p string) bool { return p == "work/dest" || strings.HasPrefix(p, "work/dest/") }
 	before, after := c16TreeIndex(obs.Before), c16TreeIndex(obs.After)
-	_ = after
 	changed := c16TreeChanged(obs.Before, obs.After)
 	switch c.Kind {
 	case "secjoin":
@@ -345,6 +426,21 @@ func c16OracleTree(c *c16Case, obs *c16Obs) []hx.Violation {
 			if !inside(p) {
 				vs = append(vs, hx.Violation{Sig: "C16:" + strings.TrimSuffix(c.Kind, "t") + "-writes-outside-destination",
 					What: fmt.Sprintf("%s changed %q, which is outside the destination directory (tree %v)", c.Kind, p, c.Tree)})
+				break
+			}
+		}
+		// "... and FOLLOW files only inside the destination, regardless of symlink entries": a link
+		// the call left below the destination must not lead out of it, by the real kernel
+		// (EvalSymlinks in the sandbox) and by a walk over the snapshot that also sees where a
+		// dangling or looping link passes through
+		for _, nl := range obs.NewLinks {
+			leaves := nl.Real != "" && !inside(nl.Real)
+			if !leaves {
+				leaves = c16WalkLeaves(after, nl.Path, "work/dest")
+			}
+			if leaves {
+				vs = append(vs, hx.Violation{Sig: "C16:" + strings.TrimSuffix(c.Kind, "t") + "-link-leads-outside",
+					What: fmt.Sprintf("%s left the link %q -> %q below the destination; it resolves to %q (%s), outside the destination", c.Kind, nl.Path, nl.Target, nl.Real, nl.Err)})
 				break
 			}
 		}
@@ -707,7 +803,94 @@ func c16GenUnsafe(r *rand.Rand, tree []c16TP) string {
 	return s
 }
 
+// archives whose entries are (or go through) links: names relative to the archive's base
+func c16Lnk(name, target string) c16Ent {
+	return c16Ent{Name: name, Type: '2', Mode: 0o777, Link: target}
+}
+func c16Hard(name, target string) c16Ent {
+	return c16Ent{Name: name, Type: '1', Mode: 0o644, Link: target}
+}
+func c16Reg(name, data string) c16Ent {
+	return c16Ent{Name: name, Type: '0', Mode: 0o644, Size: -1, Data: []byte(data)}
+}
+func c16DirEnt(name string) c16Ent { return c16Ent{Name: name, Type: '5', Mode: 0o755} }
+
+var c16LinkScenarios = [][]c16Ent{
+	// single links
+	{c16Reg("plugin.yaml", "name: p"), c16Lnk("up", "..")},
+	{c16Reg("plugin.yaml", "name: p"), c16Lnk("abs", "/etc")},
+	{c16Reg("plugin.yaml", "name: p"), c16Lnk("in", "plugin.yaml"), c16Reg("in", "through the link")},
+	{c16Reg("plugin.yaml", "name: p"), c16Lnk("self", ".")},
+	{c16Reg("plugin.yaml", "name: p"), c16Lnk("esc", "a/../../x")},
+	{c16Reg("plugin.yaml", "name: p"), c16Lnk("dang", "nothing/there")},
+	{c16DirEnt("sub"), c16Lnk("sub/up", "../..")},
+	{c16DirEnt("sub"), c16Lnk("sub/ok", ".."), c16Reg("sub/ok/f", "f")},
+	// chained pairs: each target is lexically inside
+	{c16Lnk("here", "."), c16Lnk("up", "here/.."), c16Reg("up/evil", "evil"), c16Reg("up/neighbour/plugin.yaml", "name: n")},
+	{c16Reg("plugin.yaml", "name: p"), c16Lnk("here", "."), c16Lnk("up", "here/.."), c16Lnk("plugin2.yaml", "up/neighbour/plugin.yaml")},
+	{c16DirEnt("sub"), c16Lnk("a", "sub"), c16Lnk("sub/b", "../.."), c16Reg("a/b/evil", "evil")},
+	{c16DirEnt("sub"), c16Lnk("a", "sub"), c16Lnk("c", "a/.."), c16Reg("c/f", "f")},
+	// triples
+	{c16Lnk("a", "."), c16Lnk("b", "a/."), c16Lnk("c", "b/../.."), c16Reg("c/evil", "evil")},
+	{c16DirEnt("d"), c16DirEnt("d/e"), c16Lnk("x", "d/e"), c16Lnk("y", "x/.."), c16Lnk("z", "y/../.."), c16Reg("z/evil", "evil")},
+	// hard links: single, to outside names, chained with a symlink
+	{c16Reg("plugin.yaml", "name: p"), c16Hard("h", "plugin.yaml"), c16Reg("h", "via hardlink")},
+	{c16Hard("h", "../outside/target")}, {c16Hard("h", "/etc/passwd")},
+	{c16Lnk("here", "."), c16Hard("h", "here/../../outside/target")},
+	// a link where a later regular entry and a later directory entry want to be
+	{c16Lnk("bin", ".."), c16DirEnt("bin"), c16Reg("bin/x", "x")},
+	{c16Lnk("f", "../../outside/target"), c16Reg("f", "overwrite?")},
+}
+
+func c16GenLinkScenario(r *rand.Rand) []c16Ent {
+	if r.Intn(3) != 0 {
+		return append([]c16Ent{}, c16LinkScenarios[r.Intn(len(c16LinkScenarios))]...)
+	}
+	// a random chain: links whose targets go through earlier links
+	names := []string{"l0", "l1", "l2", "l3"}
+	var ents []c16Ent
+	if r.Intn(2) == 0 {
+		ents = append(ents, c16DirEnt("sub"))
+		names = append(names, "sub/m")
+	}
+	var made []string
+	for i := 0; i < 2+r.Intn(3); i++ {
+		name := names[r.Intn(len(names))]
+		var t string
+		switch k := r.Intn(10); {
+		case k < 2 || len(made) == 0:
+			t = []string{".", "sub", "./", "sub/..", "..", "nothing"}[r.Intn(6)]
+		case k < 8:
+			t = made[r.Intn(len(made))] + []string{"/..", "/../..", "/.", "/sub", "/../outside"}[r.Intn(5)]
+		default:
+			t = []string{"/", "../..", "a/../../x"}[r.Intn(3)]
+		}
+		if strings.HasPrefix(name, "sub/") && r.Intn(2) == 0 {
+			t = "../" + t
+		}
+		if r.Intn(8) == 0 {
+			ents = append(ents, c16Hard(name, t))
+		} else {
+			ents = append(ents, c16Lnk(name, t))
+		}
+		made = append(made, strings.TrimPrefix(name, "sub/"))
+	}
+	if len(made) > 0 {
+		ents = append(ents, c16Reg(made[len(made)-1]+"/evil", "evil"))
+	}
+	return ents
+}
+
 func c16GenTreeEnts(r *rand.Rand, tree []c16TP, plugin bool) []c16Ent {
+	if r.Intn(4) == 0 {
+		ents := c16GenLinkScenario(r)
+		if !plugin {
+			for i := range ents {
+				ents[i].Name = "x/" + ents[i].Name
+			}
+		}
+		return ents
+	}
 	var ents []c16Ent
 	n := 1 + r.Intn(4)
 	for i := 0; i < n; i++ {
@@ -860,6 +1043,18 @@ func c16CorpusTree() []any {
 	} {
 		out = append(out, c16Case{Kind: "extractt", Tree: c16ExTree, Ents: ents})
 	}
+	// archives with link entries, into an empty destination and into the tree of links
+	for _, sc := range c16LinkScenarios {
+		out = append(out, c16Case{Kind: "extractt", Ents: sc})
+		xs := []c16Ent{chartYaml("mychart")}
+		for _, e := range sc {
+			e.Name = "x/" + e.Name
+			xs = append(xs, e)
+		}
+		out = append(out, c16Case{Kind: "expandt", Ents: xs})
+	}
+	out = append(out, c16Case{Kind: "extractt", Tree: c16ExTree, Ents: c16LinkScenarios[8]})
+	out = append(out, c16Case{Kind: "extractt", Tree: c16ExTree, Ents: []c16Ent{c16Lnk("a/here", "."), c16Lnk("a/up2", "here/../.."), c16Reg("a/up2/evil", "evil")}})
 	for _, legacy := range []bool{false, true} {
 		for _, cp := range []string{"work/dest/chart", "work/dest/linked", "work/dest/mychart", "work/dest/abs/dir", "work/dest/a/..", "work/dest/loop", "work/dest/plain", "work/dest/plain/",
 			"work/dest", "work/dest/dang", "work/dest/file", "work/dest/nothing", "work//dest/./chart", "work/dest/a/chain", "work/dest/inchart", "work/dest/linkplain", "work/dest/linkplain/../linkplain/"} {
